@@ -256,3 +256,429 @@ Proof.
     + apply (H k dk Hk p).
     + rewrite odfind_None. simpl. split; discriminate.
 Qed.
+
+(* ---------------------------------------------------------------------------------------------------------- *)
+(* THE characterisation of one update on an unfrozen configuration: accepted exactly when compatible, and then
+   the result is the old configuration extended by the datum at that layer                                      *)
+Section Spec.
+Variable layers : list Z.
+Variables l src : Z.
+Hypothesis Hl : In l layers.
+
+Definition spec_of (d : data) (cur : option node) : Prop :=
+  match set_data layers d cur l src with
+  | COk c' => compat l (Some d) cur /\ extends l (Some d) cur c'
+  | CErr e => ~ compat l (Some d) cur /\ (e = CStruct \/ exists s, e = CDup s)
+  end.
+
+Lemma set_val_spec v cur : unfrozen cur -> spec_of (DVal v) cur.
+Proof.
+  intros Hu. assert (Hz : zmem l layers = true) by (now apply zmem_In).
+  assert (Hnew : forall vals, zassoc l vals = None ->
+            extends l (Some (DVal v)) (Some (Leaf false vals)) (Leaf false (vals ++ [(l, (src, v))]))).
+  { intros vals E. split; [|split].
+    - intros [|k p]; simpl; [reflexivity | now rewrite ofind_None].
+    - intros [|k p]; unfold okind, dkind; simpl; [reflexivity|]. now rewrite ofind_None, odfind_None.
+    - intros [|k p] l'; unfold oat, odleaf; simpl.
+      + rewrite zassoc_app. simpl. destruct (Z.eqb l' l) eqn:El.
+        * apply Z.eqb_eq in El; subst. rewrite E. simpl. now rewrite Z.eqb_refl.
+        * destruct (zassoc l' vals); simpl; [reflexivity|]. rewrite Z.eqb_sym, El. reflexivity.
+      + rewrite ofind_None, odfind_None. simpl. destruct (l' =? l); reflexivity. }
+  unfold spec_of. destruct cur as [[f vals|f ch]|]; simpl.
+  - assert (f = false) by (apply (Hu [])). subst. unfold leaf_update. rewrite Hz. simpl.
+    destruct (zassoc l vals) as [[s v0]|] eqn:E.
+    + split; [|right; eauto]. intros Hc. destruct (Hc []) as [Hc1 _]. unfold dkind, okind, oat in Hc1; simpl in Hc1.
+      destruct (Hc1 eq_refl) as [_ H]. rewrite E in H. discriminate.
+    + split; [|now apply Hnew].
+      intros [|k p]; unfold dkind, okind, oat; simpl.
+      * split; [intros _; split; [discriminate | now rewrite E] | discriminate].
+      * rewrite odfind_None. simpl. split; discriminate.
+  - split; [|now left]. intros Hc. destruct (Hc []) as [Hc1 _]. unfold dkind, okind in Hc1; simpl in Hc1.
+    destruct (Hc1 eq_refl) as [H _]. now apply H.
+  - unfold leaf_update. rewrite Hz. simpl. split.
+    + intros [|k p]; unfold dkind, okind, oat; simpl.
+      * split; [intros _; split; [discriminate | reflexivity] | discriminate].
+      * rewrite odfind_None. simpl. split; discriminate.
+    + pose proof (Hnew [] eq_refl) as H0. simpl in H0. destruct H0 as [H1 [H2 H3]]. split; [exact H1 | split].
+      * intros p. rewrite (H2 p). unfold okind. destruct p; simpl; [reflexivity | now rewrite !ofind_None].
+      * intros p l'. rewrite (H3 p l'). unfold oat. destruct p; simpl; [reflexivity | now rewrite !ofind_None].
+Qed.
+
+Lemma child_kids cur k : nkind cur <> KLeaf -> child cur k = zassoc k (kids cur).
+Proof. destruct cur as [[|]|]; simpl; auto. Qed.
+
+Lemma set_data_spec d : wf_data d -> forall cur, unfrozen cur -> spec_of d cur.
+Proof.
+  induction d as [v|items IH] using data_ind'; intros Hwf cur Hu.
+  - now apply set_val_spec.
+  - inversion Hwf as [|? Hnd Hsub]; subst. unfold spec_of. rewrite set_data_dict.
+    destruct (nkind cur) eqn:Hkc.
+    3:{ destruct cur as [[f vals|f ch]|]; try discriminate. split; [|now left].
+        intros Hc. destruct (Hc []) as [_ Hc2]. unfold dkind, okind in Hc2; simpl in Hc2. now apply Hc2. }
+    all: assert (Hnk : nkind cur <> KLeaf) by (rewrite Hkc; discriminate).
+    all: assert (Hf : oflag cur = false) by (destruct cur as [[|]|]; try discriminate; try reflexivity; apply (Hu [])).
+    all: assert (Hgoal : match set_items layers false items (kids cur) l src with
+                         | COk ch' => compat l (Some (DDict items)) cur /\ extends l (Some (DDict items)) cur (Tree false ch')
+                         | CErr e => ~ compat l (Some (DDict items)) cur /\ (e = CStruct \/ exists s, e = CDup s)
+                         end).
+    2,4: rewrite Hf; destruct cur as [[|]|]; try discriminate;
+         destruct (set_items layers false items _ l src); exact Hgoal.
+    all: assert (HIH : forall k dk, zassoc k items = Some dk -> spec_of dk (child cur k))
+           by (intros k dk Hk; apply (IH k dk (zassoc_In _ _ _ Hk) (Hsub k dk (zassoc_In _ _ _ Hk)));
+               apply unfrozen_child; exact Hu).
+    all: destruct (set_items layers false items (kids cur) l src) as [ch'|e] eqn:E.
+    2,4: destruct (set_items_err _ _ _ _ Hnd _ _ E) as [k [dk [Hk He]]];
+         rewrite <- (child_kids _ k Hnk) in He;
+         specialize (HIH k dk Hk); unfold spec_of in HIH; rewrite He in HIH; destruct HIH as [Hnc Hcls];
+         (split; [|assumption]); intros Hc; apply Hnc; eapply compat_dict_down; eauto.
+    all: destruct (set_items_ok _ _ _ _ Hnd _ _ E) as [Ha Hb].
+    all: assert (Hss : forall k dk, zassoc k items = Some dk ->
+              exists c, zassoc k ch' = Some c /\ compat l (Some dk) (child cur k) /\ extends l (Some dk) (child cur k) c)
+           by (intros k dk Hk; destruct (Hb k dk Hk) as [c [Hc1 Hc2]]; exists c; split; [assumption|];
+               rewrite <- (child_kids _ k Hnk) in Hc1;
+               specialize (HIH k dk Hk); unfold spec_of in HIH; rewrite Hc1 in HIH; exact HIH).
+    all: split; [apply compat_dict_up; [assumption|]; intros k dk Hk; destruct (Hss k dk Hk) as [c [_ [Hc _]]]; exact Hc|].
+    all: split; [|split].
+    1,4: intros [|k p]; simpl; [reflexivity|]; destruct (zassoc k items) as [dk|] eqn:Hk;
+              [destruct (Hss k dk Hk) as [c [Hc [_ [Huc _]]]]; rewrite Hc; apply Huc
+              |rewrite (Ha k Hk), <- (child_kids _ k Hnk); apply (Hu (k :: p))].
+    1,3: intros [|k p]; unfold okind, dkind; simpl;
+              [rewrite Hkc; reflexivity|];
+              destruct (zassoc k items) as [dk|] eqn:Hk;
+              [destruct (Hss k dk Hk) as [c [Hc [_ [_ [Hkj _]]]]]; rewrite Hc; apply Hkj
+              |rewrite (Ha k Hk), odfind_None; simpl; rewrite kjoin_missing_r, (child_kids _ k Hnk); reflexivity].
+    all: intros [|k p] l'; unfold oat, odleaf; simpl;
+         [destruct (l' =? l); destruct cur as [[|]|]; simpl; try reflexivity; discriminate|];
+         destruct (zassoc k items) as [dk|] eqn:Hk;
+         [destruct (Hss k dk Hk) as [c [Hc [_ [_ [_ Hat]]]]]; rewrite Hc; apply Hat
+         |rewrite (Ha k Hk), odfind_None; simpl; destruct (l' =? l); rewrite (child_kids _ k Hnk); reflexivity].
+Qed.
+End Spec.
+
+(* ---------------------------------------------------------------------------------------------------------- *)
+(* consequences: acceptance criterion, view equivalence, commutation of two updates                           *)
+Definition veq (a b : option node) : Prop :=
+  (forall p, okind a p = okind b p) /\ (forall p l, oat a p l = oat b p l).
+
+Lemma veq_refl a : veq a a.
+Proof. split; reflexivity. Qed.
+Lemma veq_sym a b : veq a b -> veq b a.
+Proof. intros [H1 H2]. split; intros; symmetry; auto. Qed.
+Lemma veq_trans a b c : veq a b -> veq b c -> veq a c.
+Proof. intros [H1 H2] [H3 H4]. split; intros; [rewrite H1 | rewrite H2]; auto. Qed.
+
+Lemma compat_veq l od a b : veq a b -> compat l od a -> compat l od b.
+Proof. intros [H1 H2] Hc p. rewrite <- (H1 p), <- (H2 p l). apply Hc. Qed.
+
+Local Arguments set_data : simpl never.
+
+Section Seq.
+Variable layers : list Z.
+
+Lemma set_data_ok_iff d cur l src : In l layers -> wf_data d -> unfrozen cur ->
+  (exists c', set_data layers d cur l src = COk c') <-> compat l (Some d) cur.
+Proof.
+  intros Hl Hwf Hu. pose proof (set_data_spec layers l src Hl d Hwf cur Hu) as S. unfold spec_of in S.
+  destruct (set_data layers d cur l src) as [c'|e].
+  - split; [intros _; apply S | eauto].
+  - split; [intros [c' H]; discriminate | intros Hc; exfalso; now apply (proj1 S)].
+Qed.
+
+Lemma set_data_ok d cur l src c' : In l layers -> wf_data d -> unfrozen cur ->
+  set_data layers d cur l src = COk c' -> compat l (Some d) cur /\ extends l (Some d) cur c'.
+Proof.
+  intros Hl Hwf Hu E. pose proof (set_data_spec layers l src Hl d Hwf cur Hu) as S. unfold spec_of in S.
+  now rewrite E in S.
+Qed.
+
+Lemma set_data_err d cur l src e : In l layers -> wf_data d -> unfrozen cur ->
+  set_data layers d cur l src = CErr e -> ~ compat l (Some d) cur /\ (e = CStruct \/ exists s, e = CDup s).
+Proof.
+  intros Hl Hwf Hu E. pose proof (set_data_spec layers l src Hl d Hwf cur Hu) as S. unfold spec_of in S.
+  now rewrite E in S.
+Qed.
+
+Lemma extends_veq l od a b a' b' : veq a b -> extends l od a a' -> extends l od b b' -> veq (Some a') (Some b').
+Proof.
+  intros [V1 V2] [_ [A1 A2]] [_ [B1 B2]]. split.
+  - intros p. now rewrite A1, B1, V1.
+  - intros p l'. now rewrite A2, B2, V2.
+Qed.
+
+Lemma set_data_veq d a b l s s' a' : In l layers -> wf_data d -> unfrozen a -> unfrozen b -> veq a b ->
+  set_data layers d a l s = COk a' -> exists b', set_data layers d b l s' = COk b' /\ veq (Some a') (Some b').
+Proof.
+  intros Hl Hwf Ha Hb V E. destruct (set_data_ok _ _ _ _ _ Hl Hwf Ha E) as [Hc He].
+  assert (Hcb : compat l (Some d) b) by (eapply compat_veq; eauto).
+  apply (set_data_ok_iff d b l s' Hl Hwf Hb) in Hcb. destruct Hcb as [b' Eb]. exists b'. split; [assumption|].
+  destruct (set_data_ok _ _ _ _ _ Hl Hwf Hb Eb) as [_ Heb]. eapply extends_veq; eauto.
+Qed.
+
+(* two accepted updates can be exchanged: same acceptance, same contents *)
+Lemma set_data_swap d1 d2 l1 l2 s1 s2 t t1 t12 :
+  In l1 layers -> In l2 layers -> wf_data d1 -> wf_data d2 -> unfrozen (Some t) ->
+  set_data layers d1 (Some t) l1 s1 = COk t1 -> set_data layers d2 (Some t1) l2 s2 = COk t12 ->
+  exists t2 t21, set_data layers d2 (Some t) l2 s2 = COk t2 /\ set_data layers d1 (Some t2) l1 s1 = COk t21 /\
+                 veq (Some t12) (Some t21) /\ unfrozen (Some t21).
+Proof.
+  intros Hl1 Hl2 W1 W2 Hu E1 E2.
+  destruct (set_data_ok _ _ _ _ _ Hl1 W1 Hu E1) as [C1 [U1 [K1 A1]]].
+  destruct (set_data_ok _ _ _ _ _ Hl2 W2 U1 E2) as [C2 [U12 [K12 A12]]].
+  assert (C2t : compat l2 (Some d2) (Some t)).
+  { intros p. destruct (C2 p) as [Ca Cb]. rewrite K1, A1 in Ca. rewrite K1 in Cb. split.
+    - intros Hk. destruct (Ca Hk) as [Hx Hy]. split.
+      + intros Hi. apply Hx. rewrite Hi. destruct (dkind (Some d1) p); reflexivity.
+      + destruct (if l2 =? l1 then odleaf (Some d1) p else None); [discriminate | assumption].
+    - intros Hk Hi. apply (Cb Hk). rewrite Hi. destruct (dkind (Some d1) p); reflexivity. }
+  destruct (proj2 (set_data_ok_iff d2 (Some t) l2 s2 Hl2 W2 Hu) C2t) as [t2 E2t].
+  destruct (set_data_ok _ _ _ _ _ Hl2 W2 Hu E2t) as [_ [U2 [K2 A2]]].
+  assert (C1t2 : compat l1 (Some d1) (Some t2)).
+  { intros p. destruct (C1 p) as [Ca Cb]. destruct (C2 p) as [Cc Cd]. rewrite K1, A1 in Cc. rewrite K1 in Cd.
+    rewrite K2, A2. split.
+    - intros Hk. destruct (Ca Hk) as [Hx Hy]. split.
+      + rewrite Hk in Cc, Cd.
+        destruct (okind (Some t) p), (dkind (Some d2) p); simpl in *; try discriminate; try congruence;
+          try (exfalso; now apply Cd).
+      + destruct (Z.eqb l1 l2) eqn:El; [|assumption]. apply Z.eqb_eq in El. subst l2.
+        destruct (odleaf (Some d2) p) as [v2|] eqn:E2'; [|assumption]. exfalso.
+        destruct (Cc (odleaf_kind _ _ _ E2')) as [_ Hn]. rewrite Z.eqb_refl in Hn.
+        destruct (dkind_leaf _ _ Hk) as [v1 Hv1]. rewrite Hv1 in Hn. discriminate.
+    - intros Hk. specialize (Cb Hk). rewrite Hk in Cc, Cd.
+      destruct (okind (Some t) p), (dkind (Some d2) p); simpl in *; try discriminate; try congruence;
+        try (exfalso; now apply Cc). }
+  destruct (proj2 (set_data_ok_iff d1 (Some t2) l1 s1 Hl1 W1 U2) C1t2) as [t21 E1t2].
+  destruct (set_data_ok _ _ _ _ _ Hl1 W1 U2 E1t2) as [_ [U21 [K21 A21]]].
+  exists t2, t21. split; [assumption|]. split; [assumption|]. split; [|assumption]. split.
+  - intros p. rewrite K12, K1, K21, K2. destruct (C1 p) as [Ca Cb]. destruct (C2 p) as [Cc Cd].
+    rewrite K1 in Cc, Cd.
+    destruct (okind (Some t) p), (dkind (Some d1) p), (dkind (Some d2) p); simpl in *; try reflexivity; exfalso;
+      try (now apply Cb); try (now apply Cd); try (now apply (proj1 (Ca eq_refl))); try (now apply (proj1 (Cc eq_refl))).
+  - intros p l'. rewrite A12, A1, A21, A2. destruct (C2 p) as [Cc _]. rewrite A1 in Cc.
+    destruct (Z.eqb l' l2) eqn:E2'; destruct (Z.eqb l' l1) eqn:E1'; try reflexivity.
+    + destruct (odleaf (Some d2) p) as [v2|] eqn:L2; destruct (odleaf (Some d1) p) as [v1|] eqn:L1; try reflexivity.
+      exfalso. apply Z.eqb_eq in E2', E1'. subst l1 l2.
+      destruct (Cc (odleaf_kind _ _ _ L2)) as [_ Hn]. rewrite Z.eqb_refl in Hn. try rewrite L1 in Hn. discriminate.
+Qed.
+
+(* a sequence of updates (datum, layer, source) applied to a configuration *)
+Definition upd := (dict * Z * Z)%type.
+Fixpoint apply_updates (t : node) (us : list upd) : cres node :=
+  match us with
+  | [] => COk t
+  | (d, l, s) :: r => match set_data layers (DDict d) (Some t) l s with
+                      | COk t' => apply_updates t' r
+                      | CErr e => CErr e
+                      end
+  end.
+Definition good (u : upd) : Prop := let '(d, l, _) := u in wf_data (DDict d) /\ In l layers.
+
+Lemma apply_updates_app t a b :
+  apply_updates t (a ++ b) = match apply_updates t a with COk t' => apply_updates t' b | CErr e => CErr e end.
+Proof.
+  revert t. induction a as [|[[d l] s] r IH]; intros t; simpl; [reflexivity|].
+  destruct (set_data layers (DDict d) (Some t) l s); [apply IH | reflexivity].
+Qed.
+
+(* what every path / layer holds after a sequence of accepted updates *)
+Lemma apply_updates_spec us : (forall u, In u us -> good u) -> forall t0 t, unfrozen (Some t0) ->
+  apply_updates t0 us = COk t ->
+  unfrozen (Some t) /\
+  forall p l v, oat (Some t) p l = Some v <->
+                (oat (Some t0) p l = Some v \/ exists d s, In (d, l, s) us /\ odleaf (Some (DDict d)) p = Some v).
+Proof.
+  induction us as [|[[d l] s] r IH]; intros Hg t0 t Hu E; simpl in E.
+  - inversion E; subst. split; [assumption|]. intros p l v. split; [auto | intros [H|[d [s [[] _]]]]; assumption].
+  - destruct (Hg _ (or_introl eq_refl)) as [Hwf Hl].
+    destruct (set_data layers (DDict d) (Some t0) l s) as [t1|e] eqn:E1; [|discriminate].
+    destruct (set_data_ok _ _ _ _ _ Hl Hwf Hu E1) as [C1 [U1 [K1 A1]]].
+    destruct (IH (fun u H => Hg u (or_intror H)) t1 t U1 E) as [Ut Hat]. split; [assumption|].
+    intros p l' v. rewrite Hat, A1. split.
+    + intros [H|[d' [s' [Hin Hv]]]].
+      * destruct (Z.eqb l' l) eqn:El.
+        -- apply Z.eqb_eq in El. subst l'. destruct (odleaf (Some (DDict d)) p) as [v'|] eqn:L; [|now left].
+           inversion H; subst v'. right. exists d, s. split; [now left | assumption].
+        -- now left.
+      * right. exists d', s'. split; [now right | assumption].
+    + intros [H|[d' [s' [[Hin|Hin] Hv]]]].
+      * left. destruct (Z.eqb l' l) eqn:El; [|assumption]. apply Z.eqb_eq in El. subst l'.
+        destruct (odleaf (Some (DDict d)) p) as [v'|] eqn:L; [|assumption]. exfalso.
+        destruct (C1 p) as [Ca _]. destruct (Ca (odleaf_kind _ _ _ L)) as [_ Hn]. congruence.
+      * inversion Hin; subst d' l' s'. left. rewrite Z.eqb_refl, Hv. reflexivity.
+      * right. exists d', s'. auto.
+Qed.
+
+(* same sequence from equivalent configurations *)
+Lemma apply_updates_veq us : (forall u, In u us -> good u) -> forall t1 t2 r1,
+  unfrozen (Some t1) -> unfrozen (Some t2) -> veq (Some t1) (Some t2) -> apply_updates t1 us = COk r1 ->
+  exists r2, apply_updates t2 us = COk r2 /\ veq (Some r1) (Some r2) /\ unfrozen (Some r1) /\ unfrozen (Some r2).
+Proof.
+  induction us as [|[[d l] s] r IH]; intros Hg t1 t2 r1 U1 U2 V E; simpl in *.
+  - inversion E; subst. exists t2. auto.
+  - destruct (Hg _ (or_introl eq_refl)) as [Hwf Hl].
+    destruct (set_data layers (DDict d) (Some t1) l s) as [t1'|e] eqn:E1; [|discriminate].
+    destruct (set_data_veq _ _ _ _ _ s _ Hl Hwf U1 U2 V E1) as [t2' [E2 V']]. rewrite E2.
+    destruct (set_data_ok _ _ _ _ _ Hl Hwf U1 E1) as [_ [U1' _]].
+    destruct (set_data_ok _ _ _ _ _ Hl Hwf U2 E2) as [_ [U2' _]].
+    apply (IH (fun u H => Hg u (or_intror H)) t1' t2' r1 U1' U2' V' E).
+Qed.
+
+(* THE ORDER OF THE UPDATES IS IRRELEVANT: a permuted sequence is accepted too and yields the same contents *)
+Lemma apply_updates_perm us us' : Permutation us us' -> (forall u, In u us -> good u) -> forall t1 t2 r1,
+  unfrozen (Some t1) -> unfrozen (Some t2) -> veq (Some t1) (Some t2) -> apply_updates t1 us = COk r1 ->
+  exists r2, apply_updates t2 us' = COk r2 /\ veq (Some r1) (Some r2).
+Proof.
+  induction 1 as [|x l l' HP IH|x y l|l l' l'' HP1 IH1 HP2 IH2]; intros Hg t1 t2 r1 U1 U2 V E.
+  - simpl in *. inversion E; subst. eauto.
+  - destruct x as [[d lx] s]. simpl in *. destruct (Hg _ (or_introl eq_refl)) as [Hwf Hl].
+    destruct (set_data layers (DDict d) (Some t1) lx s) as [t1'|e] eqn:E1; [|discriminate].
+    destruct (set_data_veq _ _ _ _ _ s _ Hl Hwf U1 U2 V E1) as [t2' [E2 V']]. rewrite E2.
+    destruct (set_data_ok _ _ _ _ _ Hl Hwf U1 E1) as [_ [U1' _]].
+    destruct (set_data_ok _ _ _ _ _ Hl Hwf U2 E2) as [_ [U2' _]].
+    apply (IH (fun u H => Hg u (or_intror H)) t1' t2' r1 U1' U2' V' E).
+  - destruct x as [[dx lx] sx]. destruct y as [[dy ly] sy]. simpl in *.
+    destruct (Hg _ (or_introl eq_refl)) as [Wy Ly]. destruct (Hg _ (or_intror (or_introl eq_refl))) as [Wx Lx].
+    destruct (set_data layers (DDict dy) (Some t1) ly sy) as [ty|e] eqn:Ey; [|discriminate].
+    destruct (set_data layers (DDict dx) (Some ty) lx sx) as [tyx|e] eqn:Eyx; [|discriminate].
+    destruct (set_data_swap _ _ _ _ _ _ _ _ _ Ly Lx Wy Wx U1 Ey Eyx) as [tx [txy [Ex [Exy [Vs Uxy]]]]].
+    destruct (set_data_ok _ _ _ _ _ Lx Wx U1 Ex) as [_ [Ux _]].
+    destruct (set_data_veq _ _ _ _ _ sx _ Lx Wx U1 U2 V Ex) as [tx2 [Ex2 Vx]]. rewrite Ex2.
+    destruct (set_data_ok _ _ _ _ _ Lx Wx U2 Ex2) as [_ [Ux2 _]].
+    destruct (set_data_veq _ _ _ _ _ sy _ Ly Wy Ux Ux2 Vx Exy) as [txy2 [Exy2 Vxy]]. rewrite Exy2.
+    destruct (set_data_ok _ _ _ _ _ Ly Wy Ux2 Exy2) as [_ [Uxy2 _]].
+    destruct (set_data_ok _ _ _ _ _ Ly Wy U1 Ey) as [_ [Uy _]].
+    destruct (set_data_ok _ _ _ _ _ Lx Wx Uy Eyx) as [_ [Uyx _]].
+    destruct (apply_updates_veq l (fun u H => Hg u (or_intror (or_intror H))) tyx txy2 r1 Uyx Uxy2
+                (veq_trans _ _ _ Vs Vxy) E) as [r2 [Er2 [Vr _]]].
+    eauto.
+  - destruct (IH1 Hg t1 t1 r1 U1 U1 (veq_refl _) E) as [r' [E' V']].
+    assert (Hg' : forall u, In u l' -> good u).
+    { intros u Hu. apply Hg. eapply Permutation_in; [apply Permutation_sym; eassumption | assumption]. }
+    destruct (IH2 Hg' t1 t2 r' U1 U2 V E') as [r2 [E2 V2]]. exists r2. split; [assumption|].
+    eapply veq_trans; eauto.
+Qed.
+
+(* two updates of one layer giving a value to the same key path: the sequence is rejected *)
+Lemma apply_updates_clash a b c d1 d2 l s1 s2 p v1 v2 t0 :
+  (forall u, In u (a ++ (d1, l, s1) :: b ++ (d2, l, s2) :: c) -> good u) -> unfrozen (Some t0) ->
+  odleaf (Some (DDict d1)) p = Some v1 -> odleaf (Some (DDict d2)) p = Some v2 ->
+  exists e, apply_updates t0 (a ++ (d1, l, s1) :: b ++ (d2, l, s2) :: c) = CErr e /\
+            (e = CStruct \/ exists s, e = CDup s).
+Proof.
+  intros Hg Hu L1 L2.
+  replace (a ++ (d1, l, s1) :: b ++ (d2, l, s2) :: c) with ((a ++ (d1, l, s1) :: b) ++ (d2, l, s2) :: c) in *
+    by (now rewrite <- app_assoc).
+  rewrite apply_updates_app.
+  assert (Hg1 : forall u, In u (a ++ (d1, l, s1) :: b) -> good u) by (intros u H; apply Hg, in_or_app; now left).
+  destruct (Hg (d2, l, s2)) as [W2 Hl]; [apply in_or_app; right; now left|].
+  destruct (apply_updates t0 (a ++ (d1, l, s1) :: b)) as [t'|e] eqn:E.
+  - destruct (apply_updates_spec _ Hg1 _ _ Hu E) as [Ut Hat]. simpl.
+    destruct (set_data layers (DDict d2) (Some t') l s2) as [t''|e] eqn:E2.
+    + exfalso. destruct (set_data_ok _ _ _ _ _ Hl W2 Ut E2) as [C2 _].
+      destruct (C2 p) as [Ca _]. destruct (Ca (odleaf_kind _ _ _ L2)) as [_ Hn].
+      assert (Hs : oat (Some t') p l = Some v1).
+      { apply Hat. right. exists d1, s1. split; [apply in_or_app; right; now left | assumption]. }
+      congruence.
+    + exists e. split; [reflexivity|]. apply (set_data_err _ _ _ _ _ Hl W2 Ut E2).
+  - (* already rejected earlier *)
+    exists e. split; [reflexivity|].
+    clear - E Hg1 Hu. revert t0 Hu E Hg1. generalize (a ++ (d1, l, s1) :: b) as us.
+    induction us as [|[[d l'] s] r IH]; intros t0 Hu E Hg1; simpl in E; [discriminate|].
+    destruct (Hg1 _ (or_introl eq_refl)) as [Hwf Hl].
+    destruct (set_data layers (DDict d) (Some t0) l' s) as [t1|e1] eqn:E1.
+    + destruct (set_data_ok _ _ _ _ _ Hl Hwf Hu E1) as [_ [U1 _]].
+      apply (IH t1 U1 E (fun u H => Hg1 u (or_intror H))).
+    + inversion E; subst. apply (set_data_err _ _ _ _ _ Hl Hwf Hu E1).
+Qed.
+
+(* reading: the value of the highest layer (in the order of the layer list) that holds one *)
+Lemma first_some_skip a b vals : (forall x, In x a -> zassoc x vals = None) ->
+  first_some (a ++ b) vals = first_some b vals.
+Proof.
+  induction a as [|x r IH]; intros H; simpl; [reflexivity|].
+  rewrite (H x (or_introl eq_refl)). apply IH. intros y Hy. apply H. now right.
+Qed.
+
+Lemma get_top lo l hi t p v : layers = lo ++ l :: hi ->
+  oat (Some t) p l = Some v -> (forall l', In l' hi -> oat (Some t) p l' = None) -> get layers t p = LVal v.
+Proof.
+  intros HL Hv Hhi. unfold oat in *. rewrite ofind_tfind in *. unfold get.
+  destruct (tfind t p) as [[f vals|f ch]|]; simpl in *; try discriminate.
+  unfold top_value. rewrite HL, rev_app_distr. simpl. rewrite <- app_assoc. simpl.
+  rewrite first_some_skip.
+  - simpl. destruct (zassoc l vals) as [[s v']|]; simpl in *; [congruence | discriminate].
+  - intros x Hx. apply in_rev in Hx. specialize (Hhi x Hx). destruct (zassoc x vals); [discriminate | reflexivity].
+Qed.
+
+(* PRECEDENCE for an arbitrary accepted sequence of updates of arbitrary layers, starting from the empty
+   configuration: a key path reads as the value written at the highest layer anybody wrote it at *)
+Theorem precedence us t lo l hi d s p v : (forall u, In u us -> good u) ->
+  apply_updates empty_tree us = COk t -> layers = lo ++ l :: hi ->
+  In (d, l, s) us -> odleaf (Some (DDict d)) p = Some v ->
+  (forall d' l' s', In (d', l', s') us -> In l' hi -> odleaf (Some (DDict d')) p = None) ->
+  get layers t p = LVal v.
+Proof.
+  intros Hg E HL Hin Hv Hhi. destruct (apply_updates_spec _ Hg _ _ unfrozen_empty E) as [_ Hat].
+  apply (get_top lo l hi); [assumption | |].
+  - apply Hat. right. eauto.
+  - intros l' Hl'. destruct (oat (Some t) p l') as [v'|] eqn:E'; [|reflexivity]. exfalso.
+    apply Hat in E'. destruct E' as [E'|[d' [s' [Hin' Hv']]]].
+    + unfold oat in E'. destruct p; simpl in E'; [discriminate|]. rewrite ofind_None in E'. discriminate.
+    + rewrite (Hhi d' l' s' Hin' Hl') in Hv'. discriminate.
+Qed.
+End Seq.
+
+(* ---------------------------------------------------------------------------------------------------------- *)
+(* freeze                                                                                                      *)
+Lemma freeze_tree f ch : freeze (Tree f ch) = Tree true (map (fun kc => (fst kc, freeze (snd kc))) ch).
+Proof. simpl. f_equal. induction ch as [|[k c] r IH]; simpl; [reflexivity | now rewrite IH]. Qed.
+
+Lemma zassoc_map {A B} (g : A -> B) k (m : list (Z * A)) :
+  zassoc k (map (fun kc => (fst kc, g (snd kc))) m) = option_map g (zassoc k m).
+Proof. induction m as [|[a v] r IH]; simpl; [reflexivity|]. destruct (Z.eqb a k); auto. Qed.
+
+Lemma tfind_freeze t p : tfind (freeze t) p = option_map freeze (tfind t p).
+Proof.
+  revert t. induction p as [|k r IH]; intros t; [reflexivity|].
+  destruct t as [f vals|f ch]; [reflexivity|]. rewrite freeze_tree. simpl. rewrite zassoc_map.
+  destruct (zassoc k ch) as [c|]; simpl; [apply IH | reflexivity].
+Qed.
+
+(* reading is unaffected by freezing *)
+Lemma get_freeze layers t p : get layers (freeze t) p = get layers t p.
+Proof.
+  unfold get. rewrite tfind_freeze. destruct (tfind t p) as [[f vals|f ch]|]; simpl; try reflexivity.
+Qed.
+
+(* every node reachable in a frozen configuration refuses every write (the only accepted "update" is the one
+   with an empty dict, which writes nothing and returns the node as it is) *)
+Lemma frozen_rejects layers t p sub d l src : tfind (freeze t) p = Some sub ->
+  match set_data layers d (Some sub) l src with
+  | COk sub' => d = DDict [] /\ sub' = sub
+  | CErr e => e = CFrozen \/ e = CStruct
+  end.
+Proof.
+  intros H. rewrite tfind_freeze in H. destruct (tfind t p) as [x|]; [|discriminate]. simpl in H.
+  inversion H; subst sub. clear H. destruct x as [f vals|f ch].
+  - destruct d as [v|items]; simpl; auto.
+  - rewrite freeze_tree. destruct d as [v|items]; [simpl; auto|]. rewrite set_data_dict. simpl.
+    destruct items as [|[k dk] r]; simpl; auto.
+Qed.
+
+Lemma frozen_update layers t p sub items layer src : tfind (freeze t) p = Some sub ->
+  match update layers sub items layer src with
+  | COk sub' => items = [] /\ sub' = sub
+  | CErr e => e = CFrozen \/ e = CStruct
+  end.
+Proof.
+  intros H. unfold update. pose proof (frozen_rejects layers t p sub (DDict items) (resolve layers layer) src H) as R.
+  destruct (set_data layers (DDict items) (Some sub) (resolve layers layer) src); [|assumption].
+  destruct R as [R1 R2]. inversion R1. auto.
+Qed.
+
+(* on a tree node the refusal is the "frozen" error, whatever the data *)
+Lemma frozen_tree_update layers t p f ch k dk r layer src : tfind (freeze t) p = Some (Tree f ch) ->
+  update layers (Tree f ch) ((k, dk) :: r) layer src = CErr CFrozen.
+Proof.
+  intros H. rewrite tfind_freeze in H. destruct (tfind t p) as [[f' vals|f' ch']|]; try discriminate.
+  cbn [option_map] in H. rewrite freeze_tree in H. inversion H; subst. unfold update. rewrite set_data_dict. reflexivity.
+Qed.
